@@ -5,6 +5,7 @@ import (
 	"errors"
 	"fmt"
 	"runtime"
+	"strings"
 	"sync"
 	"time"
 	"sync/atomic"
@@ -32,7 +33,8 @@ type UOp struct {
 }
 
 type UpdaterCase struct {
-	Ops []UOp `json:"ops"`
+	Ops       []UOp `json:"ops"`
+	FailWrite []int `json:"fail_write"` // cache write calls (1-based) that fail; empty = no cache configured
 }
 
 type upd struct {
@@ -49,11 +51,28 @@ func runC15(t *testing.T, c UpdaterCase) (*h.Violation, h.Info) {
 	svc := fake.NewSvc()
 	svc.Set("w", 1, valueOf("w", 1))
 	svc.Set("o", 1, valueOf("o", 1))
-	st, err := setec.NewStore(context.Background(), setec.StoreConfig{Client: svc, Secrets: []string{"w", "o"}, PollInterval: -1, Logf: nolog})
+	cfg := setec.StoreConfig{Client: svc, Secrets: []string{"w", "o"}, PollInterval: -1, Logf: nolog}
+	if len(c.FailWrite) > 0 {
+		cache := fake.NewCache(nil)
+		for _, k := range c.FailWrite {
+			cache.FailWrite[k] = true
+		}
+		cfg.Cache = cache
+		info.Class("cache-with-failing-writes")
+	}
+	st, err := setec.NewStore(context.Background(), cfg)
 	if err != nil {
 		return h.V("harness", "NewStore: %v", err), info
 	}
 	defer st.Close()
+	// with a failing cache Refresh may report the cache error although the values were installed
+	refresh := func() error {
+		err := st.Refresh(context.Background())
+		if err != nil && len(c.FailWrite) > 0 && strings.Contains(err.Error(), "cache") {
+			return nil
+		}
+		return err
+	}
 	fails := map[string]bool{}
 	var ups []*upd
 	installed := string(valueOf("w", 1))
@@ -68,7 +87,7 @@ func runC15(t *testing.T, c UpdaterCase) (*h.Violation, h.Info) {
 				ver++
 				nb := string(valueOf("w", ver))
 				svc.Set("w", ver, []byte(nb))
-				if err := st.Refresh(context.Background()); err == nil {
+				if err := refresh(); err == nil {
 					installed = nb
 					for _, o := range ups {
 						o.pending = true
@@ -113,7 +132,7 @@ func runC15(t *testing.T, c UpdaterCase) (*h.Violation, h.Info) {
 				fails[b] = true
 			}
 			svc.Set("w", ver, []byte(b))
-			if err := st.Refresh(context.Background()); err != nil {
+			if err := refresh(); err != nil {
 				return h.V("harness", "Refresh: %v", err), info
 			}
 			installed = b
@@ -126,13 +145,13 @@ func runC15(t *testing.T, c UpdaterCase) (*h.Violation, h.Info) {
 				}
 			}
 		case "pollnop":
-			if err := st.Refresh(context.Background()); err != nil {
+			if err := refresh(); err != nil {
 				return h.V("harness", "Refresh: %v", err), info
 			}
 		case "other":
 			v, _, _ := svc.Active("o")
 			svc.Set("o", v+1, valueOf("o", v+1))
-			if err := st.Refresh(context.Background()); err != nil {
+			if err := refresh(); err != nil {
 				return h.V("harness", "Refresh: %v", err), info
 			}
 		case "new":
@@ -243,7 +262,7 @@ var c15 = &h.Campaign[UpdaterCase]{
 				o.Fail = rapid.IntRange(0, 3).Draw(rt, "fail") == 0
 			}
 			return o
-		}), 1, 40).Draw(rt, "ops")}
+		}), 1, 40).Draw(rt, "ops"), FailWrite: rapid.SampledFrom([][]int{nil, nil, {2}, {2, 3}, {3, 5, 6}, {1, 2, 3, 4, 5, 6, 7, 8, 9}}).Draw(rt, "failwrite")}
 	},
 	Run: runC15,
 }
